@@ -62,6 +62,7 @@ type Msg struct {
 	Marked      bool // free for the policy: the message has been counted by a macro
 	LateCopyMs  int  // set by the policy: when this request is delivered, a copy of it is delivered again that many ms later (a duplicate that lingered in the network)
 	Late        bool // this is such a copy
+	SlowDone    bool // free for the policy: the response has been slowed down once
 }
 
 func (m *Msg) String() string {
